@@ -15,6 +15,10 @@ import PromModel.Discovery.Manager
     quiesce                     sync, then read SyncCh until nothing more arrives and no trigger is
                                 pending; prints the LAST map ever received                            → <snap>
 
+    counters sent=N delayed=M got=K   written by the harness after every quiesce (observation): the manager's
+                                counters prometheus_sd_updates_total (S1), …_delayed_total (failed S2b) and the
+                                number of maps the consumer received so far; judged: N = M + K              → -
+
   <snap> = `j1=s1.5.2,s1.7.1;j2=` (jobs sorted, groups `src.ver.n` sorted), `-` for the empty map.
 
   model : the transition system `Prom.Discovery` run under one canonical schedule (every op runs to completion).
@@ -122,6 +126,7 @@ def modelOp (s : State) (op : String) : State × String :=
   | ["sync"] => (s, "-")
   | ["sleep", _] => (s, "-")
   | "recv" :: _ => (deliver s, "-")
+  | "counters" :: _ => (s, "-")
   | ["quiesce"] => let s := deliver s; (s, renderSnap s.delivered)
   | _ => (s, "unparsable")
 
@@ -236,6 +241,13 @@ def judge (ops outs : List String) : String :=
         match judgeObs st k ((field fs "obs").getD "none") with
         | some v => v
         | none => go st (k + 1) rest outs
+      | "counters" :: fs =>
+        match (field fs "sent").bind String.toNat?, (field fs "delayed").bind String.toNat?,
+              (field fs "got").bind String.toNat? with
+        | some n, some m, some g =>
+          if n = m + g then go st (k + 1) rest outs
+          else s!"violation sender-trace op={k} sent={n} delayed={m} got={g}"
+        | _, _, _ => s!"violation unparsable op={k}"
       | ["quiesce"] =>
         match judgeFinal st k out with
         | some v => v
